@@ -39,6 +39,22 @@ CYCLIC_B = '''<xs:schema xmlns:xs="http://www.w3.org/2001/XMLSchema" targetNames
 </xs:schema>'''
 
 
+def _ns_schema(ns, extra=""):
+    return (f'<xs:schema xmlns:xs="http://www.w3.org/2001/XMLSchema" targetNamespace="{ns}" xmlns:t="{ns}" elementFormDefault="qualified">'
+            f'<xs:complexType name="Item"><xs:sequence><xs:element name="v" type="xs:string"/>{extra}</xs:sequence></xs:complexType>'
+            '<xs:element name="item" type="t:Item"/></xs:schema>')
+
+
+# the same class name in two namespaces whose module paths differ in SEVERAL parts, both used by a third schema
+# (import aliases are built from the differing path parts)
+DEEP_A = "http://north.alpha.example.com/red/one"
+DEEP_B = "http://south.beta.sample.org/blue/two"
+DEEP_MAIN = (f'<xs:schema xmlns:xs="http://www.w3.org/2001/XMLSchema" targetNamespace="urn:main" xmlns:a="{DEEP_A}" xmlns:b="{DEEP_B}" elementFormDefault="qualified">'
+             f'<xs:import namespace="{DEEP_A}" schemaLocation="north.xsd"/><xs:import namespace="{DEEP_B}" schemaLocation="south.xsd"/>'
+             '<xs:element name="order"><xs:complexType><xs:sequence><xs:element name="first" type="a:Item"/><xs:element name="second" type="b:Item" maxOccurs="unbounded"/>'
+             '</xs:sequence></xs:complexType></xs:element></xs:schema>')
+
+
 def source_sets():
     sets = []
 
@@ -51,6 +67,7 @@ def source_sets():
     sets.append(("hello-wsdl", {"hello.wsdl": fx("hello", "hello.wsdl")}, ["hello.wsdl"]))
     sets.append(("dtd", {"complete_example.dtd": fx("dtd", "complete_example.dtd")}, ["complete_example.dtd"]))
     sets.append(("cyclic-two-namespaces", {"a.xsd": CYCLIC_A, "b.xsd": CYCLIC_B}, ["a.xsd", "b.xsd"]))
+    sets.append(("deep-ns-clash", {"main.xsd": DEEP_MAIN, "north.xsd": _ns_schema(DEEP_A), "south.xsd": _ns_schema(DEEP_B, '<xs:element name="n" type="xs:int"/>')}, ["main.xsd"]))
     for name in ("series",):
         d = FIX / name
         js = sorted(p for p in d.glob("*.json"))[:2]
@@ -135,6 +152,10 @@ def run(ctx):
                     ctx.case(("gen", sname, oname, seed))
                     runs = r["runs"]
                     if any("error" in x for x in runs):
+                        # a source set the generator refuses must be refused the same way every time
+                        kinds = {x.get("error", "ok").split(":")[0] for x in runs}
+                        if len(kinds) > 1 or (ref is not None and ("error" in ref) != ("error" in runs[0])):
+                            ctx.violation(f"{sname}/{oname}: generation succeeds in one run and fails in another (seed {seed}): {sorted(kinds)}", {"set": sname, "options": opts, "seed": seed})
                         if ref is None:
                             ref = runs[0]
                         continue
